@@ -29,13 +29,14 @@ class Env:
 
 class Recorder:
     """Recording learner double: picks a solver-enumerated member of the offered actions."""
-    def __init__(self, sym, trace, with_kw):
-        self.sym, self.trace, self.with_kw, self.n = sym, trace, with_kw, 0
+    def __init__(self, sym, trace, with_kw, bare=False):
+        self.sym, self.trace, self.with_kw, self.n, self.bare = sym, trace, with_kw, 0, bare
     def predict(self, context, actions):
         i = self.n; self.n += 1
         idx = self.sym.choice(f'pick{i}', range(len(actions)))
-        p = self.sym.real(f'p{i}', 0.25, 1, denom=4)
+        p = None if self.bare else self.sym.real(f'p{i}', 0.25, 1, denom=4)
         self.trace.append(('predict', i, context, list(actions), idx, p))
+        if self.bare: return actions[idx]                     # a bare action, no probability
         if self.with_kw: return actions[idx], p, {'kw': 100+i}
         return actions[idx], p
     def learn(self, context, action, reward, probability, **kw):
@@ -71,19 +72,22 @@ def _classify(v):
     if 'UnboundLocalError' in w: return "learn=None with 'time' recorded: UnboundLocalError learn_time"
     return w.split(' @')[0][:100]
 
-@obligation('C06','trace', bounds={'quick':"N=2 interactions; context kind in {None,scalar,dense 2-tuple,sparse 2-key dict} (symbolic ints); 3 actions ({10,11,12} for None/dense contexts, {0,1,2} for scalar/sparse); rewards list or function (symbolic k/4); optional logged action (fixed index (i+1) mod 3)/reward/probability (all, none, or one missing); extra field; learner with/without kwargs, with/without score(); learn x eval x 5 record sets",
+@obligation('C06','trace', bounds={'quick':"N=2 interactions; context kind in {None,scalar,dense 2-tuple,sparse 2-key dict} (symbolic ints); 3 actions (one-hot vectors with a bare-action learner when there is no context, {10,11,12} for dense, {0,1,2} for scalar/sparse contexts); rewards list or function (symbolic k/4); optional logged action (fixed index (i+1) mod 3)/reward/probability (all, none, or one missing); extra field; learner with/without kwargs, with/without score(); learn x eval x 5 record sets",
                                    'thorough':"N=2 and 3"},
             functions=FUNCS, params=params, classify=_classify, budget={'quick':80,'thorough':900})
 def trace(sym, n, learn, ev, rec):
     record = RECORDS[rec]
     ctx_kind = sym.choice('ctx', ['none','scalar','dense','sparse'])
-    act_set  = [10,11,12] if ctx_kind in ('none','dense') else [0,1,2]      # tied to the context kind to bound the product
+    # tied to the context kind to bound the product; without a context the actions are one-hot vectors (which look like a PMF) and the learner answers with a bare action
+    act_set  = [(1,0,0),(0,1,0),(0,0,1)] if ctx_kind == 'none' else [10,11,12] if ctx_kind == 'dense' else [0,1,2]
+    bare     = ctx_kind == 'none'
     rw_kind  = sym.choice('rw', ['list','func','absent'])
     logged   = sym.choice('logged', ['none','all','no_prob','no_reward','no_action'])
     with_kw  = ctx_kind in ('scalar','dense')                                 # tied likewise
     scorer   = sym.flag('score')
-    has_acts = not (ctx_kind == 'dense' and rw_kind == 'absent' and logged in ('all','none') and scorer)   # one shape without 'actions'
-    if not has_acts and ('action' in record or 'probability' in record): sym.assume(False)   # the double needs offered actions to pick from
+    # two shapes without 'actions': one with a scoring learner, one with a learner that has no score()
+    has_acts = not ((ctx_kind == 'dense' and rw_kind == 'absent' and logged in ('all','none') and scorer) or (ctx_kind == 'sparse' and rw_kind == 'absent' and logged == 'all' and not scorer))
+    if not has_acts and scorer and ('action' in record or 'probability' in record): sym.assume(False)   # the double needs offered actions to pick from
     inter, R, L = [], [], []
     for i in range(n):
         d = {}
@@ -107,7 +111,7 @@ def trace(sym, n, learn, ev, rec):
         d['extra'] = sym.int(f'e{i}', 0, 9)
         inter.append(d)
     tr = []
-    lrn = (ScoreRecorder if scorer else Recorder)(sym, tr, with_kw)
+    lrn = (ScoreRecorder if scorer else Recorder)(sym, tr, with_kw, bare)
     evaluator = SequentialCB(record=record, learn=learn, eval=ev, seed=1)
     # ---- which fields does the chosen mode need (the statement's table) ----
     need = set()
